@@ -118,7 +118,20 @@ TextSig0(e) == LET ts == Lex(e.text) IN
               ELSE (IF ParseUpdate(ts).ok THEN UpdSig(ParseUpdate(ts).ast, e.item, e.names, e.values)
                     ELSE IF LaxUpdate(ts) THEN { <<"not-a-sentence", "update-operand-kinds">> } ELSE { <<"not-a-sentence">> })
 TextSig(e) == TextSig0(e) \cup TextMarks(e) \cup PhMarks(e)
-LabSig(e) == IF e.op \in {"MatchText", "ApplyText"} THEN TextSig(e) ELSE
+\* numbers that a float64 cannot carry (more than 15 significant digits), and decimal fractions in arithmetic
+RECURSIVE NumeralsOf(_)
+NumeralsOf(v) == CASE v.t = "N" -> {v.n}
+                   [] v.t = "NS" -> SetOf(v.ns)
+                   [] v.t = "L" -> UNION { NumeralsOf(v.l[i]) : i \in DOMAIN v.l }
+                   [] v.t = "M" -> UNION { NumeralsOf(v.m[k]) : k \in DOMAIN v.m }
+                   [] OTHER -> {}
+ItemNumerals(it) == UNION { NumeralsOf(it[k]) : k \in DOMAIN it }
+NumMarks(e) ==
+  LET ns == ItemNumerals(e.item) \cup ItemNumerals(e.values)
+      arith == e.op \in {"Apply", "ApplyText"}
+  IN (IF \E n \in ns : Len(DNorm(n).d) > 15 THEN { <<"number", "more-than-15-digits">> } ELSE {})
+     \cup (IF arith /\ \E n \in ns : DNorm(n).e < 0 THEN { <<"number", "fraction-in-update">> } ELSE {})
+LabSig1(e) == IF e.op \in {"MatchText", "ApplyText"} THEN TextSig(e) ELSE
              IF e.op = "Match" THEN CondSig(e.ast, e.item, e.names, e.values) \cup (IF ItemHasEmpty(e.item) THEN { <<"empty-container">> } ELSE {})
              ELSE UpdSig(e.ast, e.item, e.names, e.values)
 
@@ -173,6 +186,8 @@ PrinterFails(e) ==
   IF e.op = "Match" THEN (IF ParseCond(Lex(e.text)).ok /\ ParseCond(Lex(e.text)).ast = e.ast THEN {} ELSE {"harness.Printer"})
   ELSE (IF ParseUpdate(Lex(e.text)).ok /\ ParseUpdate(Lex(e.text)).ast = e.ast THEN {} ELSE {"harness.Printer"})
 
+LabSig(e) == LabSig1(e) \cup NumMarks(e)
+
 LabFails(e) ==
   IF e.op \in {"MatchText", "ApplyText"} THEN TextFails(e) ELSE
   PrinterFails(e) \cup
@@ -219,7 +234,8 @@ EventFails(d, e) ==
 RECURSIVE HasDot(_)
 HasDot(bytes) == bytes # <<>> /\ (Head(bytes) = 46 \/ HasDot(Tail(bytes)))
 KeyHasDot(tbl, it) == \E a \in KeyAttrs(tbl) : a \in DOMAIN it /\ it[a].t \in {"S", "B"} /\ HasDot(Pay(it[a]))
-OpSig(d, e) ==
+StoredEmpty(d, e) == \E c \in DOMAIN d : \E t \in DOMAIN d[c].tables : \E it \in d[c].tables[t].items : ItemHasEmpty(it)
+OpSig0(d, e) ==
   IF e.op \in {"PutItem", "GetItem", "UpdateItem", "DeleteItem"} /\ e.t \in DOMAIN d[e.c].tables
   THEN LET tbl == d[e.c].tables[e.t]
            k == IF e.op = "PutItem" THEN e.item ELSE e.key
@@ -235,6 +251,10 @@ OpSig(d, e) ==
        IN IF tg.ok /\ PlaceholdersOK(ReadUsedNames(e), ReadUsedVals(e), e.names, e.values) /\ ~ValidKeyCond(e.kc, e.names, tg.hash, tg.range)
           THEN { <<"keycond-invalid">> } ELSE {}
   ELSE {}
+
+NonStringKey(d, e) == "t" \in DOMAIN e /\ e.t \in DOMAIN d[e.c].tables /\
+                      LET tbl == d[e.c].tables[e.t] IN tbl.hash.ty # "S" \/ (tbl.range.some /\ tbl.range.ty # "S")
+OpSig(d, e) == OpSig0(d, e) \cup (IF NonStringKey(d, e) THEN { <<"non-string-key">> } ELSE {}) \cup (IF StoredEmpty(d, e) \/ (e.op = "PutItem" /\ ItemHasEmpty(e.item)) THEN { <<"empty-container">> } ELSE {})
 
 TraceInit == l = 1 /\ db = InitDB /\ fails = <<>> /\ TLCSet(1, 1) /\ TLCSet(2, <<>>)
 
